@@ -32,11 +32,11 @@ def interleaveIn (w : List UInt64) : UInt64 × UInt64 :=
 def interleaveOut (q0 q1 : UInt64) : List UInt64 :=
   ((runPrim SqiGen.Aes.interleave_out_prog SqiGen.Aes.interleave_out_nreg [q0, q1, 0, 0, 0, 0]).drop 2).take 4
 
-/-- `br_dec32le` (value of a uint32_t held in a 64-bit register) -/
+/-- `br_dec32le` (value of a uint32_t held in a 64-bit register): byte j at bits 8j … 8j+7 -/
 def dec32le (b : List UInt8) : UInt64 :=
-  (b.getD 0 0).toUInt64 ||| ((b.getD 1 0).toUInt64 <<< 8) ||| ((b.getD 2 0).toUInt64 <<< 16) ||| ((b.getD 3 0).toUInt64 <<< 24)
+  (List.range 4).foldl (fun r j => r ||| ((b.getD j 0).toUInt64 <<< (8 * j).toUInt64)) 0
 /-- `br_enc32le` -/
-def enc32le (x : UInt64) : List UInt8 := [x.toUInt8, (x >>> 8).toUInt8, (x >>> 16).toUInt8, (x >>> 24).toUInt8]
+def enc32le (x : UInt64) : List UInt8 := (List.range 4).map fun j => (x >>> UInt64.ofNat (8 * j)).toUInt8
 
 /-- the rounds of `aes_ecb4x` on the bitsliced state: q after the initial ortho, sk_exp as 8-word round keys -/
 def roundsQ (q : List UInt64) (sk : Nat → List UInt64) (nrounds : Nat) : List UInt64 :=
@@ -44,14 +44,31 @@ def roundsQ (q : List UInt64) (sk : Nat → List UInt64) (nrounds : Nat) : List 
   let q := (List.range (nrounds - 1)).foldl (fun q i => addRoundKeyQ (mixColumnsQ (shiftRowsQ (sboxQ q))) (sk (i + 1))) q
   addRoundKeyQ (shiftRowsQ (sboxQ q)) (sk nrounds)
 
+/-- the entry sequence of `aes_ecb4x` as one register program:
+    `for i < 4: br_aes_ct64_interleave_in(&q[i], &q[i + 4], w + (i << 2)); br_aes_ct64_ortho(q);`
+    registers 0..15 = w[0..15], 16..23 = q[0..7], then the locals of the five calls (disjoint). -/
+def inProg : Prog :=
+  ((List.range 4).flatMap fun j => SqiGen.Aes.interleave_in_prog.rename fun r =>
+      if r < 4 then 4 * j + r else if r = 4 then 16 + j else if r = 5 then 20 + j else 24 + 4 * j + (r - 6))
+  ++ SqiGen.Aes.ortho_prog.rename fun r => if r < 8 then 16 + r else 40 + (r - 8)
+def inNreg : Nat := 64
+/-- bitsliced state of 4 blocks given as 16 little-endian words -/
+def sliceIn (w : List UInt64) : List UInt64 := ((runPrim inProg inNreg w).drop 16).take 8
+
+/-- the exit sequence: `br_aes_ct64_ortho(q); for i < 4: br_aes_ct64_interleave_out(w + (i << 2), q[i], q[i + 4]);`
+    registers 0..7 = q, 8..23 = w[0..15], then locals. -/
+def outProg : Prog :=
+  (SqiGen.Aes.ortho_prog.rename fun r => if r < 8 then r else 24 + (r - 8))
+  ++ (List.range 4).flatMap fun j => SqiGen.Aes.interleave_out_prog.rename fun r =>
+      if r = 0 then j else if r = 1 then j + 4 else if r < 6 then 8 + 4 * j + (r - 2) else 48 + 4 * j + (r - 6)
+def outNreg : Nat := 64
+def sliceOut (q : List UInt64) : List UInt64 := ((runPrim outProg outNreg q).drop 8).take 16
+
 /-- `aes_ecb4x(out, ivw, sk_exp, nrounds)`: 16 input words (4 blocks), expanded key of 8·(nrounds+1) words -/
 def ecb4x (w : List UInt64) (skExp : List UInt64) (nrounds : Nat) : List UInt8 :=
-  let qs := (List.range 4).map fun i => interleaveIn ((w.drop (4 * i)).take 4)
-  let q := orthoQ (qs.map (·.1) ++ qs.map (·.2))
+  let q := sliceIn w
   let q := roundsQ q (fun r => (skExp.drop (8 * r)).take 8) nrounds
-  let q := orthoQ q
-  let ws := (List.range 4).flatMap fun i => interleaveOut (q.getD i 0) (q.getD (i + 4) 0)
-  ws.flatMap enc32le
+  (sliceOut q).flatMap enc32le
 
 /-! ### the coordinates of the bitsliced representation -/
 /-- bit position of state byte i = r + 4c of block blk -/
